@@ -115,3 +115,43 @@ Theorem C17_unrestricted_refuted :
     ~ left_term st r ops.
 Proof. exact check_quorum_unrestricted_refuted. Qed.
 Print Assumptions C17_unrestricted_refuted.
+
+(* ---- a leader knows itself as the leader (Proofs/RoleProofs.v) ----
+   [coh r]: the node's id is not 0 and, if it is leader, its [lead] is its own id.  Established by
+   newRaft, kept by every message, tick, configuration change and every input of the RawNode API;
+   with it the hypothesis [r_lead r <> NoneId] of the CheckQuorum theorem above holds in every
+   reachable state. *)
+From RaftV Require RoleProofs.
+From RaftV Require Import RawNode NodeProps.
+
+Theorem C17_leader_knows_itself_step : forall st r m r' e,
+  step st r m = Ok (r', e) -> RoleProofs.coh r -> RoleProofs.coh r'.
+Proof. exact RoleProofs.step_ck. Qed.
+Print Assumptions C17_leader_knows_itself_step.
+
+Theorem C17_leader_knows_itself_tick : forall st r r',
+  tick st r = Ok r' -> RoleProofs.coh r -> RoleProofs.coh r'.
+Proof. exact RoleProofs.tick_ck. Qed.
+Print Assumptions C17_leader_knows_itself_tick.
+
+Theorem C17_leader_knows_itself_history : forall ins n n' rn,
+  n_rn n = Some rn -> RoleProofs.rcoh rn ->
+  Forall (fun id => same_incarnation (fst id) = true) ins ->
+  node_run n ins = Ok n' ->
+  exists rn', n_rn n' = Some rn' /\ RoleProofs.rcoh rn'.
+Proof. exact RoleProofs.node_run_coh. Qed.
+Print Assumptions C17_leader_knows_itself_history.
+
+Theorem C17_leader_knows_itself_start : forall st c d rn,
+  new_rawnode st c d = Ok rn -> RoleProofs.rcoh rn.
+Proof. exact RoleProofs.new_rawnode_coh. Qed.
+Print Assumptions C17_leader_knows_itself_start.
+
+Theorem C17_check_quorum_steps_down_reachable : forall st r H ops rf,
+  RoleProofs.coh r -> r_state r = StateLeader -> r_check_quorum r = true ->
+  1 <= r_election_timeout r ->
+  no_quorum r H -> ops_ok r H ops ->
+  lrun st r ops = Ok rf -> 2 * r_election_timeout r <= ticks ops ->
+  left_term st r ops.
+Proof. exact RoleProofs.check_quorum_steps_down_reachable. Qed.
+Print Assumptions C17_check_quorum_steps_down_reachable.
